@@ -40,6 +40,8 @@ mod repair;
 mod slow_path;
 mod statistic;
 mod tfc_achetype;
+#[cfg(feature = "verif")]
+pub mod verif_api;
 mod visualization;
 
 #[derive(
